@@ -228,6 +228,25 @@ def after_derivation_histories():
     return out
 
 
+def boundary_identifier_histories():
+    """fixed programs: identifiers at the boundaries of the name syntax — a URI that is exactly a declared namespace URI
+    (empty local part), a local part that is itself a URI, a local part holding the prefix separator — created through
+    each insertion path, looked up in every spelling (the probe after every call spells each identifier as QualifiedName,
+    under another prefix, as full URI, as prefix:local)"""
+    U = "http://example.org/dataset#"
+    out = []
+    for ident in (["Q", "ex", U, ""], ["Q", "ex", U, "http://example.org/dataset#x"], ["Q", "ex", U, "a:b"], ["S", U]):
+        p = [["NewDoc"], ["AddNs", ["d", "0"], "ex", U], ["NewBundle", "0", ["S", "ex:bundle"]],
+             ["NewRecord", ["d", "0"], "Entity", ident, [[["S", "ex:k"], ["int", "1"]]]],
+             ["NewRecord", ["b", "0", "0"], "Agent", ident, []],
+             ["NewRecord", ["d", "0"], "Entity", ["S", "ex:other"], []],
+             ["GetRecord", ["d", "0"], ["S", U]], ["GetRecord", ["b", "0", "0"], ["S", U]],
+             ["NewDoc"], ["Update", ["d", "1"], ["d", "0"]], ["GetRecord", ["d", "1"], ["S", U]],
+             ["Unified", "0"], ["Flattened", "0"], ["ExportJson", "0"]]
+        out.append(p)
+    return out
+
+
 def run(tier, seed, log, model_runs=True, enlarged=False):
     return worldprop.run(PROP, tier, seed, log, model_runs, enlarged, C18Oracle, ["merge", "mixed", "records"],
                          n_quick=150, n_thorough=2500, classify=classify, nontrivial=nontrivial,
@@ -239,7 +258,7 @@ def run(tier, seed, log, model_runs=True, enlarged=False):
                                    "and abstract base, records-is-a-copy; plus 16 fixed scoping histories (a bundle resolving through its document, then getting its "
                                    "own default namespace by set_default_namespace / update / a prefix-less name) and 8 histories with one identifier on records of several kinds followed by every call that walks the index; "
                                    "non-trivial = >=3 record-inserting calls",
-                         extra_cases=scoping_histories() + after_derivation_histories(),
+                         extra_cases=scoping_histories() + after_derivation_histories() + boundary_identifier_histories(),
                          theorem_note="C18_* over World.add_rec_to / Interp.step")
 
 
